@@ -659,8 +659,6 @@ def standard_check(mod, tier, seed, replay=None):
     run_module = getattr(mod, 'RUN_MODULE', None)
     if run_module:
         targets.append('theories/%s.vo' % run_module.replace('.', '/'))
-    if tier == 'thorough' and os.environ.get('VERIF_NO_CLEAN') != '1':
-        coq_clean()
     ok, out = coq_make(targets)
     rep.oblige('coq:make', ok, out[-3000:] if not ok else ' '.join(targets))
     names = pinned_theorems(prop_file)
@@ -682,11 +680,11 @@ def standard_check(mod, tier, seed, replay=None):
                '; '.join(hits[:10]) if hits else 'scanned %s' % ('whole development' if tier == 'thorough' else '%d files in the dependency closure' % len(closure)))
     checker = 'make -f Makefile.coq %s && coqc Properties/%s.v (Print Assumptions)' % (' '.join(targets), pid)
     if tier == 'thorough' and ok and os.environ.get('VERIF_NO_COQCHK') != '1':
+        # clean-room: copy the sources, rebuild the property's closure from nothing, re-check with coqchk
         lib = 'Sccache.Properties.' + pid
-        rc, o, dt = sh(['coqchk', '-silent', '-o', '-Q', 'theories', 'Sccache', lib], cwd=COQ, timeout=3000)
-        axioms_ok = rc == 0 and coqchk_axioms_ok(o, set(sum(allow.values(), [])))
-        rep.oblige('coqchk:' + lib, axioms_ok, o[-1500:])
-        checker += ' && coqchk -silent -o ' + lib
+        okc, detail = clean_room_coqchk(pid, targets, lib, set(sum(allow.values(), [])))
+        rep.oblige('clean-rebuild+coqchk:' + lib, okc, detail[-1500:])
+        checker += ' && (clean copy) make && coqchk -silent -o ' + lib
 
     # 4. correspond
     model_ok = False
@@ -711,6 +709,31 @@ def standard_check(mod, tier, seed, replay=None):
             import traceback
             rep.oblige('extra-legs', False, traceback.format_exc()[-3000:])
     return finish(rep, 'proof', checker)
+
+
+def clean_room_coqchk(pid, targets, lib, allowed):
+    d = os.path.join(BUILD, 'cleanroom', pid)
+    shutil.rmtree(d, ignore_errors=True)
+    os.makedirs(d)
+    src = os.path.join(COQ, 'theories')
+    for root, _, names in os.walk(src):
+        for n in names:
+            if n.endswith('.v'):
+                rel = os.path.relpath(os.path.join(root, n), COQ)
+                os.makedirs(os.path.dirname(os.path.join(d, rel)), exist_ok=True)
+                shutil.copy(os.path.join(root, n), os.path.join(d, rel))
+    files = sorted(os.path.relpath(os.path.join(r, n), d) for r, _, ns in os.walk(os.path.join(d, 'theories')) for n in ns)
+    open(os.path.join(d, '_CoqProject'), 'w').write(open(os.path.join(COQ, '_CoqProject.head')).read() + '\n'.join(files) + '\n')
+    rc, out, _ = sh(['coq_makefile', '-f', '_CoqProject', '-o', 'Makefile.coq'], cwd=d, timeout=120)
+    if rc != 0:
+        return False, 'coq_makefile: ' + out
+    rc, out, dt = sh(['make', '-f', 'Makefile.coq', '-j%d' % NPROC] + list(targets), cwd=d, timeout=3000)
+    if rc != 0:
+        return False, 'clean rebuild failed: ' + out[-1500:]
+    rc, o, dt2 = sh(['coqchk', '-silent', '-o', '-Q', 'theories', 'Sccache', lib], cwd=d, timeout=3000)
+    ok = rc == 0 and coqchk_axioms_ok(o, allowed)
+    shutil.rmtree(d, ignore_errors=True)
+    return ok, 'clean make %.0fs, coqchk %.0fs: %s' % (dt, dt2, o[-800:])
 
 
 def coqchk_axioms_ok(out, allowed):
